@@ -130,7 +130,7 @@ def judge_member(res, bad, value, t, where, node, collided, stats):
         bad(key, f"{where}: value {value!r:.80} is not a member of {src} = {RT.show(t)}")
 
 
-def judge_c06(res6, text, db, k, wit):
+def judge_c06(res6, text, db, k, wit, cross=None):
     se = StubEval(text)
     collided = {loc.split()[-1] for kind, _d, loc in se.events if kind == "typeddict-class-name-collision"}
     for name, n in (se.typeddict_classes() if not se.syntax_error else []):
@@ -138,10 +138,12 @@ def judge_c06(res6, text, db, k, wit):
             res6.count("stub_typeddict_classes_skipped_name_collision")
             continue
         res6.count("stub_typeddict_classes")
+        sfx = ":store-written-under-larger-limit" if cross else ""
+        note = f" ({cross})" if cross else ""
         if k == 0:
-            res6.violation("typeddict-class-in-stub-with-limit-zero", f"class {name} in a stub generated with limit 0", wit)
+            res6.violation("typeddict-class-in-stub-with-limit-zero" + sfx, f"class {name} in a stub generated with limit 0{note}", wit)
         elif n > k:
-            res6.violation("typeddict-class-over-limit-in-stub", f"class {name} has {n} fields, limit {k}", wit)
+            res6.violation("typeddict-class-over-limit-in-stub" + sfx, f"class {name} has {n} fields, limit {k}{note}", wit)
         elif n == 0:
             res6.violation("empty-typeddict-class-in-stub", name, wit)
 
@@ -190,7 +192,9 @@ def work(p):
             fam = gv.dict_family_members(keys=("a", "b", "c", "d"), vals=("1", "'x'", "None"))
             big = ["{" + ", ".join(f"'{c}': {i}" for i, c in enumerate("abcdefghijkl"[:n])) + "}" for n in (2, 3, 4, 9, 10, 11)]
             opts["wide"] = True
-            opts["pool"] = rng.sample(fam, 40) + big + ["[" + ", ".join(rng.sample(fam, 3)) + "]" for _ in range(10)] + ["1", "None", "'s'"]
+            small = [e for e in gv.dict_family_members(keys=("a", "b", "c"), vals=("1", "'x'", "None")) if e.count(":") in (1, 2)]
+            lods = ["[" + ", ".join(rng.sample(small, rng.choice([1, 2, 2]))) + "]" for _ in range(30)]
+            opts["pool"] = rng.sample(fam, 25) + big + lods + ["1", "None"]
         if spec.get("literal"):
             m = gm.Mod(rng, spec["name"], opts)
             m.source = gm.HEADER + spec["literal"]["source"]
@@ -249,6 +253,12 @@ def work(p):
                                       dict(wit, details=texts[:5], stub=text[:2500]))
                     if not keys:
                         res.sample({"module": m.name, "k": k, "rewriter": rw, "flag": flag, "calls": len(records)}, cap=1)
+            # the store may have been written under a larger limit than the one in force at stub time
+            for k2 in spec.get("cross_k", {}).get(str(k), []):
+                rc, text, err = cli(["-c", f"vf.mon.cfg:K{k2}_NoOpRewriter", "stub", m.name])
+                res6.count("cross_limit_stubs")
+                if rc == 0:
+                    judge_c06(res6, text, db, k2, dict(wit0, traced_with_limit=k, stub_limit=k2, cross_limit=True), cross=f"traced at {k}, stub at {k2}")
             os.remove(db)
         modrun.unload(m, d)
     os.environ.pop("MT_DB_PATH", None)
@@ -260,8 +270,8 @@ def program_specs(ck, n, prop="C01", full=True):
     for i in range(n):
         r = ck.rng("p", i)
         specs.append({"name": f"vfm01_{prop}_{ck.seed}_{i}", "seed": f"{prop}:{ck.seed}:{i}", "nfuncs": r.choice([6, 10, 12]),
-                      "stratum": "collide" if r.random() < 0.1 else "main", "pool": "dicts" if r.random() < (0.6 if prop == "C06" else 0.2) else None,
-                      "ks": KS, "rewriters": CFG.REWRITERS if full else ["NoOpRewriter", "DEFAULT"], "flags": list(FLAGS) if full else ["default"]})
+                      "stratum": "collide" if r.random() < 0.1 else "main", "pool": "dicts" if r.random() < (0.6 if prop == "C06" else 0.3) else None,
+                      "cross_k": {"10": [0, 2], "3": [0, 1]} if prop == "C06" else {}, "ks": KS, "rewriters": CFG.REWRITERS if full else ["NoOpRewriter", "DEFAULT"], "flags": list(FLAGS) if full else ["default"]})
     return specs
 
 
